@@ -55,7 +55,7 @@ structure Loaded where
   dim : Nat
   entries : List (Nat × Nat × Int)
   const : Int
-deriving Repr
+deriving Repr, DecidableEq
 
 def loadFile (f : ExportFile) : Loaded :=
   let recs := f.diag ++ f.off
